@@ -76,6 +76,8 @@ def gen_function(rng, fid, role, avail, phase_ctx, opts, later=()):
         # middleware functions: Middleware.request/endpoint/render are None when absent and clastic tests them for
         # truth, so a falsy object there *is* "no function" by the framework's own convention
         spec['falsy'] = True
+    if form == 'callable_object' and rng.chance(0.25):
+        spec['wrapped'] = True          # carries __wrapped__ pointing at a function with another signature
     if role == 'mw' and rng.chance(0.3):
         spec['next_style'] = 'pos'      # hands its provided values to next() positionally
     return spec
@@ -196,6 +198,8 @@ def gen_config(rng, opts=None):
     route = {'bindings': bindings, 'mws': [dict((kk, vv) for kk, vv in m.items() if kk != 'where') for m in mws if m['where'] == nlev],
              'resources': route_res, 'endpoint': endpoint, 'render': render,
              'methods': ['GET'] if rng.chance(0.5) else None}
+    if bindings and opts.get('binding_ops', True) and rng.chance(0.3):
+        route['last_op'] = rng.pick(['?', '?', '*', '+'])      # the last URL binding is optional / takes several segments
     cfg = {'levels': levels, 'route': route, 'beh': {}, 'build_via_add': rng.chance(0.3)}
     # two instances of one *non-unique* middleware type on two different levels: both stay, each with its own provides
     by_where = {}
